@@ -321,6 +321,7 @@ Inv_C03 == HoldsAll("C03")
 Inv_C04 == HoldsAll("C04")
 Inv_C05 == HoldsAll("C05")
 Inv_C06 == HoldsAll("C06")
+Inv_C08 == HoldsAll("C08")
 Inv_C10 == HoldsAll("C10")
 Inv_C11 == HoldsAll("C11")
 Inv_C12 == HoldsAll("C12")
@@ -334,6 +335,12 @@ Inv_NoWrap == \A i \in Its : counter[i] < MOD \div 2
 InFlight(t) == pc[t] \in {"fa", "ld", "ld2", "st", "ret"}
 Inv_C09_LockFree == \A t \in T : InFlight(t) => ENABLED Step(t)
 Live_C09 == \A t \in 1..NT : InFlight(t) ~> ~InFlight(t)
+
+
+\* counterexample export: the violating behaviour's programs and schedule, for replay on the real crate
+Cex(P) == P \/ (PrintT(<<"CEX", ToJson(h)>>) /\ FALSE)
+NoFlagsX == Cex(NoFlags)
+SpecGen == Spec
 
 \* export of a complete behaviour (schedule + programs) for replay on the real crate
 GenEmit == Terminal => PrintT(<<"SCN", ToJson(h)>>)
